@@ -66,6 +66,19 @@ Theorem c06_precoloured_kept : forall color pre, check_precoloured color pre = t
 Proof. exact precoloured_kept. Qed.
 Print Assumptions c06_precoloured_kept.
 
+(* what the per-frame entry point run by the check establishes: the liveness table it computes is
+   validated like a supplied certificate, and the rewritten program is literally the renamed
+   program without the deleted copies *)
+Theorem c06_check_frame_unfold : forall prog fuel ctbl atbl physl ridx pre after,
+  check_frame prog fuel ctbl atbl physl ridx pre after = true ->
+  let live := compute_live prog fuel in
+  let removed := removed_flags ridx (length prog) in
+  check_alloc prog live (color_of ctbl) (alias_of atbl) physl removed = true /\
+  check_precoloured (color_of ctbl) pre = true /\
+  compact removed (target (color_of ctbl) prog removed) = after.
+Proof. exact check_frame_unfold. Qed.
+Print Assumptions c06_check_frame_unfold.
+
 (* non-vacuity: a frame with a coalesced copy, an aliasing pair (0 ~ 1) and a loop is accepted;
    the same frame with the loop-carried register put on the aliasing register is rejected *)
 Definition ex_prog : list instr :=
@@ -78,8 +91,8 @@ Definition ex_prog : list instr :=
 Definition ex_live : list (list reg) := [[2]; [1000]; [1000; 1001]; [1000; 1001]; [1000; 1001]; []].
 Definition ex_alias := alias_of [(0, [1]); (1, [0])].
 Example c06_nonvacuous :
-  check_frame ex_prog ex_live [(1000, 2); (1001, 3)] [(0, [1]); (1, [0])] [0; 2; 3]
-              [false; true; false; false; false; false] [(2, 2); (3, 3); (0, 0)]
+  check_frame ex_prog 10 [(1000, 2); (1001, 3)] [(0, [1]); (1, [0])] [0; 2; 3]
+              [1%nat] [(2, 2); (3, 3); (0, 0)]
               [ mkInstr [] [2] [] false []; mkInstr [] [3] [] false [];
                 mkInstr [2; 3] [3] [0] false []; mkInstr [3] [] [] false [2%nat; 4%nat];
                 mkInstr [3] [3] [] true [] ] = true
